@@ -1,0 +1,20 @@
+package nodeutil
+
+import "github.com/freeconf/yang/meta"
+
+// caseHasData is true when exists reports data for any data definition of the case. A case
+// that itself holds a choice is decided by the definitions inside that nested choice's cases.
+func caseHasData(kase *meta.ChoiceCase, exists func(meta.Definition) bool) bool {
+	for _, ddef := range kase.DataDefinitions() {
+		if nested, isChoice := ddef.(*meta.Choice); isChoice {
+			for _, nestedCase := range nested.Cases() {
+				if caseHasData(nestedCase, exists) {
+					return true
+				}
+			}
+		} else if exists(ddef) {
+			return true
+		}
+	}
+	return false
+}
